@@ -391,6 +391,21 @@ func famFault(tr *Trace, scratch string, seed int64, tier string, workers int, r
 			{"rpm_relation_suggests", func(c *Cfg, y string) string { c.Suggests = []string{"sug =< 2"}; return c.YAML(root) }},
 			{"rpm_relation_conflicts", func(c *Cfg, y string) string { c.Conflicts = []string{"bad => 1"}; return c.YAML(root) }},
 			{"missing_name", func(c *Cfg, y string) string { return strings.Replace(y, "name: \"invpkg\"\n", "", 1) }},
+			// an owner / group name that no GNU tar header can hold (deb and ipk write GNU headers): on a declared directory, on
+			// a file - the entry cannot be shipped as declared, so nothing is (the other formats store the name)
+			{"gnu_name_limit_dir", func(c *Cfg, y string) string {
+				c.Entries = append(c.Entries, Entry{Type: "dir", Dst: "/var/lib/invpkg", Fi: Fi{Owner: strings.Repeat("o", 40), Group: "g", Mode: 0o750}, HasFi: true})
+				return c.YAML(root)
+			}},
+			{"gnu_name_limit_file", func(c *Cfg, y string) string {
+				c.Entries = append(c.Entries, Entry{Type: "file", Src: "src/app.conf", Dst: "/etc/invpkg/app.conf", Fi: Fi{Owner: "own", Group: strings.Repeat("g", 33)}, HasFi: true})
+				return c.YAML(root)
+			}},
+			{"gnu_name_limit_tree_dirs", func(c *Cfg, y string) string {
+				c.Entries = append(c.Entries, Entry{Type: "dir", Dst: "/var/lib/invpkg/a", Fi: Fi{Owner: "app", Group: strings.Repeat("g", 64)}, HasFi: true},
+					Entry{Type: "dir", Dst: "/var/lib/invpkg/b", Fi: Fi{Owner: strings.Repeat("o", 33), Group: "g"}, HasFi: true})
+				return c.YAML(root)
+			}},
 			{"wrong_passphrase", func(c *Cfg, y string) string { return y }},
 		}
 		for _, cl := range classes {
